@@ -22,11 +22,16 @@ CHECKS = {
     'C04': dict(
         cat='model_checking', ref='DESIGN.md 4.4, 6/C04', engine='store',
         technique='TLA+ StoreAtomic (AtMostOnce, RunsJustified, OnlyOnDemand, RunOnlyIfNeeded, UnforcedLoads) checked '
-                  'with TLC; behaviours replayed on the real library comparing the run log of every call',
+                  'with TLC; behaviours replayed on the real library comparing the run log of every call; traces of the '
+                  'repository test-suite and of the replays validated against StoreTrace.tla by TLC',
         text='TLC checks, with history counters, that without forcing/failure/deletion no location is run twice over '
              'any interleaving of constructions, requests, inspections and restarts, and that every run is justified. '
              'Replay compares the exact sequence of run invocations of every public call (zero for loads, held values, '
-             'construction and inspection: tasks_df, has_data, paths, run_info, log, readable links, str/repr).',
+             'construction and inspection: tasks_df, has_data, paths, run_info, log, readable links, str/repr). In the '
+             'other direction, the repository\'s own 128 tests are run under an observation plugin (no source change) and '
+             'every event of Task.data\'s decision logic (exists / load / run / save / delete / force, per task object) '
+             'of every test, and of 1500+ replayed behaviours, is validated by TLC against StoreTrace.tla; corrupted '
+             'traces are shown to be rejected (binding self-test).',
         note='Run invocations are observed inside generated run bodies. Chain.draw() excluded (no graphviz).'),
     'C07': dict(
         cat='model_checking', ref='DESIGN.md 4.4, 6/C07', engine='store',
@@ -323,6 +328,9 @@ def main():
              'kind_free_text': 'TLA+ history machine + shape enumeration for round trips'},
             {'name': 'placeholders', 'path': '/verif/specs/Placeholders.tla', 'serves_properties': ['C11'],
              'kind_free_text': 'TLA+ substitution on character sequences, property vs regular-expression transcription'},
+            {'name': 'storetrace', 'path': '/verif/specs/StoreTrace.tla', 'serves_properties': ['C04'],
+             'kind_free_text': 'trace specification: recorded executions (repository test-suite, replays) validated by TLC '
+                               'in batch; harness/tcverif/pytest_trace.py records, trace_check.py validates'},
             {'name': 'helpers', 'path': '/verif/specs/TestHelpers.tla', 'serves_properties': ['C19'],
              'kind_free_text': 'TLA+ enumeration of TestChain cases with expected value trees'},
             {'name': 'migrate', 'path': '/verif/specs/Migrate.tla', 'serves_properties': ['C20'],
